@@ -181,4 +181,13 @@ def run(ctx):
         if len(ctx.cov["samples"]) < 8 and (len(ctx.cov["samples"]) < 2 or int(s["inst"][1:]) % 41 == 7):
             ctx.sample({"R": i["r"], "T": i["t"], "N": str(i["n"]), "D": str(i["d"]), "evaluations": s["evals"], "hist": s["hist"]})
     ctx.cov["rep_pairs_covered"] = len(pairs)
+    # coverage-guided campaign over floating sources -> integral targets (raw bit patterns; soundness oracle inside the target)
+    from .. import fuzzrun
+    res, err = fuzzrun.campaign(ctx, "c05_fuzz", 300000 if quick else 40000000, 32)
+    if res is None:
+        if core.HARNESS_BUG_RE.search(err):
+            raise RuntimeError("c05 fuzz target does not build: " + err[-800:])
+        ctx.bump("fuzz_target_build_failed")
+    else:
+        fuzzrun.report(ctx, "C05", "c05_fuzz", (res, ""), "soundness of the <T> checkers violated for a floating source")
     ctx.cov["instances"] = len(insts)
